@@ -1,52 +1,317 @@
 """C03 — stream elements deliver each token exactly once, in order, rightly transformed."""
-from explore import Job, run_jobs, generic_search
+import itertools
+from explore import Job, run_jobs, generic_search, replay_with_monitor, impl_step
 from streamlib import StreamInst
+import c03lib as L
+from c03lib import reduce_garbage as RG
 from litex.soc.interconnect import stream
+from litex.soc.interconnect.stream import EndpointDescription as ED
 
 L1 = [("data", 1)]
 L2 = [("data", 2)]
 L8 = [("data", 8)]
 L32 = [("data", 32)]
-FMT = "sink.valid, sink.data, sink.first, sink.last, source.ready"
+FMT = ("one-sink/one-source elements: sink.valid, sink.data(payload|param packed, first field lowest), sink.first, "
+       "sink.last, source.ready, extra inputs (Gate: enable, Shifter: shift); Multiplexer: sel, source.ready, "
+       "(valid,data,first,last) per sink; Demultiplexer: sel, sink.valid, data, first, last, source_k.ready")
+
+# finding ids
+F_PACK = "C03-pack-stale-last"
+F_STRIDE = "C03-strideconv-up-param"
+# status of the findings in known_findings.json: set by correspond()/probes() from ctx.known before jobs are built
+STATUS = {}
+
+
+def _status(ctx):
+    STATUS.clear()
+    for e in ctx.known:
+        STATUS[e.get("id")] = e.get("status")
+
+
+def stride_gated():
+    """StrideConverter (up): which code is expected in /repo — the param register loaded on every clock edge
+    (unchanged tree) or, once the finding is recorded as fixed, loaded only together with a sub-word."""
+    return STATUS.get(F_STRIDE) == "fixed"
+
+
+def b(x):
+    return 1 if x else 0
+
+
+def toks(nbits, flags=True):
+    vals = range(1 << nbits)
+    if flags:
+        return [(d, f, l) for d in vals for f in (0, 1) for l in (0, 1)]
+    return [(d, 0, 0) for d in vals] + [((1 << nbits) - 1, 1, 1)]
+
+
+def stride_lane(ws, r):
+    """(packed number of the wide endpoint's payload, physical lane n) -> raw bits of that lane."""
+    def f(x, n):
+        out, sh, off = 0, 0, 0
+        for w in ws:
+            out |= ((x >> (r * off + n * w)) & L.mask(w)) << sh
+            sh += w
+            off += w
+        return out
+    return f
+
+
+# ---------------------------------------------------------------------------------------------------------
+# instance constructors (each returns a fresh instance; called inside worker processes)
+
+def mk_up(r, nb, rev, raw=True, tokens=None):
+    """_UpConverter (raw=True: valid_token_count visible) or Converter without the count."""
+    m = stream._UpConverter(nb, nb * r, r, rev) if raw else stream.Converter(nb, nb * r, reverse=rev)
+    name = "%s(%d->%d%s)" % ("_UpConverter" if raw else "Converter", nb, nb * r, ",reverse" if rev else "")
+    return RG(StreamInst(name, m, "up %d %d 0 %d %d" % (r, nb, b(rev), b(raw)), tokens=tokens or toks(nb),
+                         spec=lambda: L.UpScoreboard(r, nb, 0, rev, vtc=raw)))
+
+
+def mk_down(r, nb, rev, raw=True, tokens=None):
+    m = stream._DownConverter(nb * r, nb, r, rev) if raw else stream.Converter(nb * r, nb, reverse=rev)
+    name = "%s(%d->%d%s)" % ("_DownConverter" if raw else "Converter", nb * r, nb, ",reverse" if rev else "")
+    return RG(StreamInst(name, m, "down %d %d 0 %d %d" % (r, nb, b(rev), b(raw)), tokens=tokens or toks(nb * r),
+                         spec=lambda: L.DownScoreboard(r, nb, 0, rev, vtc=raw)))
+
+
+def mk_pack(n, nb, pw, rev, tokens=None):
+    d = ED([("data", nb)], [("p", pw)] if pw else [])
+    m = stream.Pack(d, n, reverse=rev)
+    name = "Pack(%db%s,n=%d%s)" % (nb, "+p%d" % pw if pw else "", n, ",reverse" if rev else "")
+    return RG(StreamInst(name, m, "up %d %d %d %d 0" % (n, nb, pw, b(rev)), tokens=tokens or toks(nb + pw),
+                         spec=lambda: L.UpScoreboard(n, nb, pw, rev)))
+
+
+def mk_unpack(n, nb, pw, rev, tokens=None):
+    d = ED([("data", nb)], [("p", pw)] if pw else [])
+    m = stream.Unpack(n, d, reverse=rev)
+    name = "Unpack(n=%d,%db%s%s)" % (n, nb, "+p%d" % pw if pw else "", ",reverse" if rev else "")
+    return RG(StreamInst(name, m, "down %d %d %d %d 0" % (n, nb, pw, b(rev)), tokens=tokens or toks(n * nb + pw),
+                         spec=lambda: L.DownScoreboard(n, nb, pw, rev)))
+
+
+def mk_stride(up, r, ws, pw, rev, tokens=None):
+    narrow = ED([("f%d" % k, w) for k, w in enumerate(ws)], [("p", pw)] if pw else [])
+    wide = ED([("f%d" % k, w * r) for k, w in enumerate(ws)], [("p", pw)] if pw else [])
+    nb = sum(ws)
+    wtxt = " ".join(map(str, ws))
+    if up:
+        m = stream.StrideConverter(narrow, wide, reverse=rev)
+        gated = stride_gated()
+        return RG(StreamInst("StrideConverter(up x%d,%s+p%d%s)" % (r, ws, pw, ",reverse" if rev else ""), m,
+                             "strideup %d %d %d %d %s" % (r, pw, b(rev), b(gated), wtxt),
+                             tokens=tokens or toks(nb + pw),
+                             spec=lambda: L.UpScoreboard(r, nb, pw, rev, check_param=gated,
+                                                         lane_of=stride_lane(ws, r))))
+    m = stream.StrideConverter(wide, narrow, reverse=rev)
+    return RG(StreamInst("StrideConverter(down /%d,%s+p%d%s)" % (r, ws, pw, ",reverse" if rev else ""), m,
+                         "stridedown %d %d %d %s" % (r, pw, b(rev), wtxt), tokens=tokens or toks(nb * r + pw),
+                         spec=lambda: L.DownScoreboard(r, nb, pw, rev, lane_of=stride_lane(ws, r))))
+
+
+def mk_gearbox(i, o, msb, tokens=None):
+    m = stream.Gearbox(i, o, msb_first=msb)
+    return RG(StreamInst("Gearbox(%d,%d,%s)" % (i, o, "msb" if msb else "lsb"), m,
+                         "gearbox %d %d %d" % (i, o, b(msb)), tokens=tokens or toks(i, flags=False),
+                         spec=lambda: L.GearboxScoreboard(i, o, msb)))
+
+
+def mk_gate(nb, srd, tokens=None):
+    m = stream.Gate([("data", nb)], sink_ready_when_disabled=srd)
+    return RG(StreamInst("Gate(%db,srd=%d)" % (nb, b(srd)), m, "gate %d" % b(srd), tokens=tokens or toks(nb),
+                         extra_inputs=[m.enable], extra_alphabet=[(0,), (1,)],
+                         spec=lambda: L.GateScoreboard(srd)))
+
+
+def mk_delay(nb, n, tokens=None):
+    m = stream.Delay([("data", nb)], n)
+    return StreamInst("Delay(%db,%d)" % (nb, n), m, "delay %d" % n, tokens=tokens, capacity=n)
+
+
+def mk_cast(ws_from, ws_to, rf, rt):
+    m = stream.Cast([("a%d" % k, w) for k, w in enumerate(ws_from)], [("x%d" % k, w) for k, w in enumerate(ws_to)],
+                    reverse_from=rf, reverse_to=rt)
+    n = sum(ws_from)
+    return RG(StreamInst("Cast(%s->%s,%d,%d)" % (ws_from, ws_to, b(rf), b(rt)), m,
+                         "cast %d %d %d %s" % (b(rf), b(rt), len(ws_from), " ".join(map(str, ws_from + ws_to))),
+                         tokens=toks(n) if n <= 4 else None,
+                         spec=lambda: L.MapScoreboard(L.cast_fn(ws_from, ws_to, rf, rt))))
+
+
+def mk_shifter(dw, tokens=None):
+    m = stream.Shifter(dw)
+    nsh = 1 << len(m.shift)
+    return RG(StreamInst("Shifter(%d)" % dw, m, "shifter %d" % dw, tokens=tokens or toks(dw),
+                         extra_inputs=[m.shift], extra_alphabet=[(s,) for s in range(nsh)],
+                         spec=lambda: L.ShifterScoreboard(dw)))
+
+
+def mk_bufferized_up(r, nb, rev, tokens=None):
+    cls = stream.BufferizeEndpoints({"sink": stream.DIR_SINK, "source": stream.DIR_SOURCE})(stream._UpConverter)
+    m = cls(nb, nb * r, r, rev)
+    return RG(StreamInst("BufferizeEndpoints(_UpConverter(%d->%d))" % (nb, nb * r), m,
+                         "bufferized_up %d %d %d" % (r, nb, b(rev)), tokens=tokens or toks(nb),
+                         spec=lambda: L.UpScoreboard(r, nb, 0, rev, vtc=True)))
 
 
 def jobs(tier):
     quick = tier == "quick"
     J = []
-    A = lambda mk, **kw: J.append(Job("A", mk, max_states=30000 if quick else 1000000, **kw))
+    A = lambda mk, **kw: J.append(Job("A", mk, max_states=kw.pop("max_states", 20000 if quick else 1000000), **kw))
     B = lambda mk, **kw: J.append(Job("B", mk, cycles=3000 if quick else 30000, runs=1 if quick else 4, **kw))
+    T2 = [(0, 0, 1), (1, 1, 0)]   # two token values that toggle every field (keeps stale-memory blow-up small)
+
+    # ---- first slice: pipes, buffers, FIFOs
     A(lambda: StreamInst("PipeValid/1b", stream.PipeValid(L1), "pipevalid", capacity=1))
     A(lambda: StreamInst("PipeReady/1b", stream.PipeReady(L1), "pipeready", capacity=1))
     A(lambda: StreamInst("Buffer(v,r)/1b", stream.Buffer(L1, True, True), "buffer_vr", capacity=2))
     A(lambda: StreamInst("Buffer(v)/1b", stream.Buffer(L1, True, False), "pipevalid", capacity=1))
     A(lambda: StreamInst("Buffer(r)/1b", stream.Buffer(L1, False, True), "pipeready", capacity=1))
+    A(lambda: StreamInst("Buffer(-)/1b", stream.Buffer(L1, False, False), "wire", capacity=0))
     A(lambda: StreamInst("SyncFIFO(0)/1b", stream.SyncFIFO(L1, 0), "wire", capacity=0))
     A(lambda: StreamInst("SyncFIFO(1)/1b", stream.SyncFIFO(L1, 1), "pipevalid", capacity=1))
-    T2 = [(0, 0, 1), (1, 1, 0)]   # two token values that toggle every field (keeps stale-memory blow-up small)
     for d in (2, 3) if quick else (2, 3, 4, 5):
         A(lambda d=d: StreamInst("SyncFIFO(%d)/1b" % d, stream.SyncFIFO(L1, d), "syncfifo %d" % d, capacity=d,
                                  tokens=T2))
         A(lambda d=d: StreamInst("SyncFIFO(%d,buffered)/1b" % d, stream.SyncFIFO(L1, d, buffered=True),
                                  "syncfifo_buffered %d" % d, capacity=d + 1, tokens=T2))
-    A(lambda: StreamInst("SyncFIFO(2)/1b/allflags", stream.SyncFIFO(L1, 2), "syncfifo 2", capacity=2))
+    if not quick:
+        A(lambda: StreamInst("SyncFIFO(2)/1b/allflags", stream.SyncFIFO(L1, 2), "syncfifo 2", capacity=2))
+
+    # ---- converters, ratios 2-4 ± reverse, 1-bit sub-words
+    for r in (2, 3, 4):
+        for rev in (False, True):
+            A(lambda r=r, rev=rev: mk_up(r, 1, rev))
+            A(lambda r=r, rev=rev: mk_down(r, 1, rev))
+            A(lambda r=r, rev=rev: mk_pack(r, 1, 0, rev))
+            A(lambda r=r, rev=rev: mk_unpack(r, 1, 0, rev))
+    for rev in (False, True):
+        A(lambda rev=rev: mk_up(2, 1, rev, raw=False))
+        A(lambda rev=rev: mk_down(2, 1, rev, raw=False))
+        A(lambda rev=rev: mk_pack(2, 1, 1, rev))
+        A(lambda rev=rev: mk_unpack(2, 1, 1, rev))
+        A(lambda rev=rev: mk_stride(True, 2, [1, 1], 1, rev))
+        A(lambda rev=rev: mk_stride(False, 2, [1, 1], 1, rev))
+    A(lambda: StreamInst("Converter(1->1)", stream.Converter(1, 1), "wire", capacity=0))
+    if not quick:
+        A(lambda: mk_up(4, 2, False))
+        A(lambda: mk_stride(True, 3, [1, 2], 1, False))
+        A(lambda: mk_stride(False, 3, [1, 2], 1, True))
+
+    # ---- gearbox (i,o) in {1..4}^2 ± msb_first
+    for i in (1, 2, 3, 4):
+        for o in (1, 2, 3, 4):
+            for msb in (True, False):
+                if quick and msb != ((i + o) % 2 == 0) and L.io_lcm(i, o) > 6:
+                    continue      # quick: both bit orders only for the small registers
+                A(lambda i=i, o=o, msb=msb: mk_gearbox(i, o, msb), max_states=6000 if quick else 400000)
+
+    # ---- routing
+    for n in (1, 2, 3):
+        A(lambda n=n: L.MuxInst("Multiplexer(%d)" % n, stream.Multiplexer(L1, n), n))
+        A(lambda n=n: L.DemuxInst("Demultiplexer(%d)" % n, stream.Demultiplexer(L1, n), n))
+    for srd in (False, True):
+        A(lambda srd=srd: mk_gate(1, srd))
+
+    # ---- pipelines
+    A(lambda: mk_delay(1, 0))
+    A(lambda: mk_delay(1, 1))
+    A(lambda: mk_delay(1, 2, tokens=T2))
+    A(lambda: mk_delay(1, 3, tokens=T2))
+    for rf in (False, True):
+        for rt in (False, True):
+            A(lambda rf=rf, rt=rt: mk_cast([1, 2], [2, 1], rf, rt))
+    A(lambda: mk_cast([1, 1, 1], [3], True, False))
+    A(lambda: mk_shifter(2, tokens=[(0, 0, 0), (1, 0, 1), (2, 1, 0), (3, 1, 1)]))
+    if not quick:
+        A(lambda: mk_shifter(3))
+    A(lambda: mk_bufferized_up(2, 1, False, tokens=T2))
+
+    # ---- mode B: realistic sizes
     B(lambda: StreamInst("PipeValid/32b", stream.PipeValid(L32), "pipevalid", capacity=1))
     B(lambda: StreamInst("Buffer(v,r)/8b", stream.Buffer(L8, True, True), "buffer_vr", capacity=2))
     B(lambda: StreamInst("SyncFIFO(16)/8b", stream.SyncFIFO(L8, 16), "syncfifo 16", capacity=16))
     B(lambda: StreamInst("SyncFIFO(64,buffered)/32b", stream.SyncFIFO(L32, 64, buffered=True),
                          "syncfifo_buffered 64", capacity=65))
+    B(lambda: mk_up(8, 8, False))
+    B(lambda: mk_up(16, 8, True))
+    B(lambda: mk_up(2, 32, False, raw=False))
+    B(lambda: mk_down(8, 8, True))
+    B(lambda: mk_down(16, 4, False))
+    B(lambda: mk_down(2, 32, False, raw=False))
+    B(lambda: mk_pack(8, 8, 4, False))
+    B(lambda: mk_pack(4, 16, 0, True))
+    B(lambda: mk_unpack(8, 8, 4, True))
+    B(lambda: mk_unpack(2, 32, 0, False))
+    B(lambda: mk_stride(True, 4, [8, 3, 5], 6, False))
+    B(lambda: mk_stride(True, 8, [4, 4], 2, True))
+    B(lambda: mk_stride(False, 4, [8, 3, 5], 6, True))
+    B(lambda: mk_stride(False, 2, [16, 16], 0, False))
+    for (i, o, msb) in ((10, 8, True), (8, 10, False), (66, 64, True), (20, 32, True), (7, 9, False)) + \
+            (() if quick else ((10, 8, False), (8, 10, True), (64, 66, False), (32, 20, False), (9, 7, True))):
+        B(lambda i=i, o=o, msb=msb: mk_gearbox(i, o, msb))
+    B(lambda: L.MuxInst("Multiplexer(3)/8b", stream.Multiplexer(L8, 3), 3))
+    B(lambda: L.DemuxInst("Demultiplexer(3)/8b", stream.Demultiplexer(L8, 3), 3))
+    B(lambda: mk_gate(32, False))
+    B(lambda: mk_gate(8, True))
+    B(lambda: mk_delay(32, 3))
+    B(lambda: mk_cast([8, 16, 8], [4, 12, 16], True, False))
+    B(lambda: mk_cast([5, 11], [11, 5], False, True))
+    B(lambda: mk_shifter(8))
+    B(lambda: mk_shifter(32))
+    B(lambda: mk_bufferized_up(4, 8, True))
     return J
 
 
 def correspond(ctx):
+    _status(ctx)
     ctx.jobs = jobs(ctx.tier)
     dis, bad = run_jobs(ctx, ctx.jobs)
     return dis
 
 
 def search(ctx, disagreements, proof_info):
+    _status(ctx)
     return generic_search(ctx, disagreements, getattr(ctx, "jobs", None) or jobs(ctx.tier), FMT)
+
+
+# ---------------------------------------------------------------------------------------------------------
+# finding probes (witnesses replayed on the real code with the property oracle armed)
+
+def _probe(inst, trace):
+    r = replay_with_monitor(inst, [tuple(l) for l in trace])
+    return (r is not None), ("cycle %d: %s" % r if r else "witness passes")
+
+
+def probes(ctx):
+    _status(ctx)
+    out = []
+    # F5 (fixed bb9626a): Pack, n = 2.  Sub-words 1,1 complete a word; while the consumer takes it the sink is
+    # invalid but carries last = 1; the next word (sub-words 0,0 without last) must not be marked last.
+    inst = mk_pack(2, 1, 0, False)
+    w = [(1, 1, 0, 0, 0), (1, 1, 0, 0, 0), (0, 0, 0, 1, 1), (1, 0, 0, 0, 0), (1, 0, 0, 0, 0), (0, 0, 0, 0, 1)]
+    fails, what = _probe(inst, w)
+    out.append((F_PACK, fails, "Pack(n=2): sink invalid with last=1 during a source handshake; " + what))
+    # candidate finding: StrideConverter (up) registers source.param on every clock edge.  A completed word of
+    # packet A (param 1) that waits for the consumer is delivered with the param of the next offered sub-word.
+    inst = mk_stride(True, 2, [1], 2, False)
+    inst.spec = lambda: L.UpScoreboard(2, 1, 2, False, check_param=True)
+    pa, pb = 1 << 1, 2 << 1                                     # param field sits above the 1-bit payload
+    w = [(1, 1 | pa, 1, 0, 0), (1, 0 | pa, 0, 1, 0), (1, 1 | pb, 1, 0, 0), (1, 1 | pb, 1, 0, 1)]
+    fails, what = _probe(inst, w)
+    what = "StrideConverter(up): word delivered under back-pressure carries the param of the next sub-word; " + what
+    if F_STRIDE in STATUS:
+        out.append((F_STRIDE, fails, what))
+    else:
+        # not (yet) listed in known_findings.json: reported to the coordinator, shown in the log and the evidence
+        line = "CANDIDATE-FINDING: property=C03 id=%s %s: %s" % (F_STRIDE, "reproduces" if fails else "does not reproduce", what)
+        print(line, flush=True)
+        ctx.cov.notes.append(line)
+    return out
 
 
 def replay(ctx, payload):
     from explore import generic_replay
+    _status(ctx)
     return generic_replay(ctx, payload, jobs("thorough"))
